@@ -171,13 +171,17 @@ const srcShims = `({
   getter: function(callee) { return Object.defineProperty({}, "x", {get: callee}); },
   iterable: function(callee) { var o = {}; o[Symbol.iterator] = function() { return {next: function() { callee(); return {done: true}; }}; }; return o; },
   promise: function(callee) { return function shimThen() { Promise.resolve().then(function job() { callee(); }); }; },
+  iterableThrowingReturn: function(log, idx) { var o = {}; o[Symbol.iterator] = function() { var n = 0;
+      return {next: function() { return n++ ? {done: true} : {value: 1, done: false}; },
+              return: function() { log(idx, "r"); throw new Error("ret"); }}; }; return o; },
   tramp: function(callee) { return function trampoline() { callee(); }; },
-  vals: function(G1, G3, G4, G6, E1v) {
+  vals: function(G1, G3, G4, G6, E1v, intr) {
     class MyErr extends Error {}
     return {P1: "boom", P2: 42, P3: undefined, P4: null, O1: {tag: 1},
       R1: new Error("r1"), R2: new TypeError("r2"), R3: new MyErr("r3"),
       G1: G1, G3: G3, G4: G4, G6: G6, V1: {value: E1v}, V2: {value: 42},
-      U1: {toString: function() { throw new Error("inner"); }}, U2: Object.create(null)};
+      U1: {toString: function() { throw new Error("inner"); }}, U2: Object.create(null),
+      U3: {toString: function() { intr(); for (;;) {} }}};
   }
 })`
 
@@ -258,7 +262,7 @@ func (c *caseT) shim(name string, args ...goja.Value) goja.Value {
 	return c.must(f(goja.Undefined(), args...))
 }
 
-var valOrder = []string{"P1", "P2", "P3", "P4", "O1", "R1", "R2", "R3", "G1", "G3", "G4", "G6", "V1", "V2", "U1", "U2"}
+var valOrder = []string{"P1", "P2", "P3", "P4", "O1", "R1", "R2", "R3", "G1", "G3", "G4", "G6", "V1", "V2", "U1", "U2", "U3"}
 
 func (c *caseT) ensureVals() {
 	if c.valsOk {
@@ -266,7 +270,8 @@ func (c *caseT) ensureVals() {
 	}
 	c.valsOk = true
 	r, g := c.r, c.g
-	o := c.shim("vals", r.NewGoError(g.E1), r.NewGoError(g.W3), r.NewGoError(g.J4), r.NewGoError(g.WI6), r.ToValue(g.E1)).(*goja.Object)
+	o := c.shim("vals", r.NewGoError(g.E1), r.NewGoError(g.W3), r.NewGoError(g.J4), r.NewGoError(g.WI6), r.ToValue(g.E1),
+		r.ToValue(func(call goja.FunctionCall) goja.Value { r.Interrupt(g.E9); return goja.Undefined() })).(*goja.Object)
 	c.vals = map[string]goja.Value{}
 	for _, n := range valOrder {
 		c.vals[n] = o.Get(n)
@@ -393,6 +398,12 @@ func (c *caseT) mkFrame(kind string, idx int, callee goja.Value) goja.Value {
 		it := c.shim("iterable", callee)
 		return r.ToValue(func(call goja.FunctionCall) goja.Value {
 			r.ForOf(it, func(goja.Value) bool { return true })
+			return goja.Undefined()
+		})
+	case "FOT": // Runtime.ForOf, the step callback calls the callee; the iterator's return() throws
+		it := c.shim("iterableThrowingReturn", r.ToValue(c.logFn), r.ToValue(idx))
+		return r.ToValue(func(call goja.FunctionCall) goja.Value {
+			r.ForOf(it, func(goja.Value) bool { c.callNext(callee); return true })
 			return goja.Undefined()
 		})
 	case "DY":
